@@ -147,8 +147,8 @@ def kernel_case(spec):
 
 def run(res):
     quick = res.tier == "quick"
-    n_scene = 10 if quick else 120
-    n_kernel = 40 if quick else 600
+    n_scene = 10 if quick else 320
+    n_kernel = 40 if quick else 2000
     specs = [dict(seed=res.seed, idx=i, kind=("uniform" if i % 3 == 2 else "nonuniform"),
                   max_patches=(22 if quick else 40)) for i in range(n_scene)]
     for r in fw.run_parallel(scene_case, specs):
